@@ -49,6 +49,13 @@ CONFIGS["many_special"] = {'cps': [{'type': ('bit', 3), 'bins': [['a', 'arr', No
 CONFIGS["x_atleast"] = {'cps': [{'type': ('bit', 2), 'bins': [['lo', 'bin', 0, 1], ['hi', 'bin', 2, 3]], 'at_least': 2},
                                 {'type': ('bit', 2), 'bins': [['a', 'arr', None, [0, 1]], ['r', 'bin', [2, 3]]], 'at_least': 1}],
                         'crosses': [['x', [0, 1], None, {'at_least': 2}], ['y', [1, 0], None, {'at_least': 1}]]}
+CONFIGS["x_other"] = {'cps': [{'type': ('bit', 2), 'bins': [['lo', 'bin', 0, 1], ['hi', 'bin', 2, 3]]},
+                              {'type': ('bit', 2), 'bins': [['p', 'bin', 0, 1], ['q', 'bin', 2, 3]]},
+                              {'type': ('bit', 2), 'bins': [['a', 'arr', 2, [0, 3]]]}],
+                      'crosses': [['x', [1, 2], None]], 'values': [(0, 0, 0), (3, 1, 2), (2, 3, 3)]}
+CONFIGS["x_weight"] = {'cps': [{'type': ('bit', 2), 'bins': [['lo', 'bin', 0, 1], ['hi', 'bin', 2, 3]], 'weight': 2},
+                               {'type': ('bit', 2), 'bins': [['a', 'arr', None, [0, 3]]]}],
+                       'crosses': [['x', [0, 1], None, {'weight': 3}], ['y', [1, 0], None, {'weight': 0}]], 'no_c13': True}
 SHAPES = ("full", "small")     # 'small' drops the last bin entry of coverpoint 0
 VALUES = {1: [(0,), (3,), (2,)], 2: [(0, 0), (3, 1), (2, 3)]}
 MAX_INST = 3
@@ -150,7 +157,8 @@ class World(object):
         for j, h in enumerate(x_hits):
             cr = self.cfg['crosses'][j]
             al = (cr[3] or {}).get('at_least', xal) if len(cr) > 3 else xal
-            items.append((1, 100.0 * sum(1 for c in h if c >= al) / len(h) if h else 0.0))
+            wt = (cr[3] or {}).get('weight', 1) if len(cr) > 3 else 1
+            items.append((wt, 100.0 * sum(1 for c in h if c >= al) / len(h) if h else 0.0))
         tw = sum(w for w, _ in items)
         return sum(w * c for w, c in items) / tw if tw else 100.0, [c for _, c in items]
 
@@ -175,7 +183,9 @@ class World(object):
             hidden.append((tuple(tuple(cov.cp_hits(cp)[0]) for cp in m.coverpoint_l),
                            tuple(tuple(sorted(cp.unhit_s)) for cp in m.coverpoint_l),
                            tuple(tuple(cr.hit_l) for cr in m.cross_l),
-                           id(m.type_cg) if False else None))
+                           (bool(m.coverage_calc_valid), bool(m.type_cg.coverage_calc_valid) if m.type_cg is not None else None,
+                            tuple(bool(cp.coverage_calc_valid) for cp in m.coverpoint_l),
+                            tuple(bool(cr.coverage_calc_valid) for cr in m.cross_l))))
         from vsc.impl.coverage_registry import CoverageRegistry
         rg = CoverageRegistry.inst()
         types = tuple((name, len(l), tuple(len(t.cg_inst_l) for t in l)) for name, l in sorted(rg.covergroup_type_m.items()))
@@ -193,6 +203,12 @@ def replay_hist(cfgname, hist):
 def apply_op(w, op):
     if op[0] == "create":
         w.create(op[1])
+    elif op[0] == "query":
+        # a coverage query is an operation of its own: it fills the implementation's caches
+        with common.silenced():
+            for shape, cg in w.insts:
+                cg.get_coverage()
+                cg.get_inst_coverage()
     else:
         w.sample(op[1], tuple(op[2]))
 
@@ -205,6 +221,7 @@ def enabled_ops(w):
     for i in range(len(w.insts)):
         for vals in (w.cfg.get('values') or VALUES[len(w.cfg['cps'])]):
             ops.append(["sample", i, list(vals)])
+    ops.append(["query"])
     return ops
 
 
@@ -290,9 +307,10 @@ def expand(cfgname, hist):
         cnt["api_ops"] += 1
         w2 = replay_hist(cfgname, hist)
         apply_op(w2, op)
+        k2 = w2.key()          # before the oracle's own coverage queries fill the caches
         v, _ = check_state(w2, hist + [op], cov0)
         viol += v
-        succ.append((op, w2.key()))
+        succ.append((op, k2))
     return {"succ": succ, "viol": viol[:6], "cnt": cnt}
 
 
